@@ -5,6 +5,7 @@ specification; repeating it never changes it; the recorded finding is exhibited 
 -/
 import DW.Model.Caches
 import DW.Props.C07
+import DW.Lemmas.KeyCache
 
 namespace DW.Props.C06
 open DW DW.Caches DW.Props.C07
@@ -151,5 +152,37 @@ theorem C06_transparent_partial (ds : Defs) (st : St) (ops : List Op) (r : Nat) 
     (step ds (run ds st ops).1 (.dump r)).2 = specDump ds r := by
   rw [C07_disjoint ds st ops r hdisj]
   exact C06_first_use_is_spec ds st r hnd hr hf
+
+/-! ### the load side: the per-class key cache -/
+
+/-- **C06 (load side, any history).** The generated loader looks JSON keys up in a per-class cache that every call
+extends. For any class, any effective Meta, any per-field loaders and **any sequence of earlier documents** loaded by
+that class: every call returns exactly what the same call returns in a fresh process (the loop without a cache,
+`loadClassWith`). Invariant by induction over the history: every cached entry is what the slow path computes for its
+key, and a class that rejects unknown keys has cached none of them (repair 4bdd4a1). -/
+theorem C06_load_history_independent (FL : S → JVal → LRes) (eff : MetaCfg) (ci : ClassInfo)
+    (docs : List (List (S × JVal))) :
+    (KeyCache.runCalls false FL eff ci [] docs).1 = docs.map (fun d => loadClassWith FL eff ci (.dict d)) :=
+  KeyCache.history_eq FL eff ci docs [] (KeyCache.Inv_nil eff ci)
+
+/-- … and the cache a call leaves behind satisfies the invariant again, also when the call fails half way -/
+theorem C06_load_cache_invariant (FL : S → JVal → LRes) (eff : MetaCfg) (ci : ClassInfo) (c : KeyCache.Cache)
+    (hc : KeyCache.Inv eff ci c) (d : List (S × JVal)) :
+    KeyCache.Inv eff ci (KeyCache.loadCall false FL eff ci c d).2 :=
+  (KeyCache.call_eq FL eff ci c hc d).2
+
+def isOk : LRes → Bool
+  | .ok _ => true
+  | .error _ => false
+
+/-- the behaviour before repair 4bdd4a1 (unknown keys cached although the class rejects them): the second identical call
+with an unknown key succeeds although the first one was rejected; with the repair both are rejected -/
+theorem C06_negative_cache_witness :
+    let ci : ClassInfo := { name := "K".toList, fields := [{ name := "a".toList }] }
+    let eff : MetaCfg := { raiseOnUnknown := some true }
+    let doc : List (S × JVal) := [("a".toList, .int 1), ("zzz".toList, .int 2)]
+    ((KeyCache.runCalls true (fun _ v => pure v.toPy) eff ci [] [doc, doc]).1.map isOk = [false, true]) ∧
+    ((KeyCache.runCalls false (fun _ v => pure v.toPy) eff ci [] [doc, doc]).1.map isOk = [false, false]) := by
+  constructor <;> rfl
 
 end DW.Props.C06
